@@ -5,22 +5,32 @@ Family (tinyprog `addrident`, lib/addrident.py): executable E + shared libraries
 linked by wild, and the same member linked entirely by GNU ld as the reference.
   entity kind {function, data, IFUNC, TLS object, protected function, protected data}
   x definer {E, A}
-  x per module the set of forms through which it takes the entity's address
-    (E: direct lea / abs32 / abs64, GOT (mov / push / add forms), .quad data initialiser, PLT call;
-     libraries: GOT forms, .quad, PLT call, and direct where the library binds locally;
-     TLS: LE, IE (add / mov), GD, TLSDESC)  -- full product of all subsets per module
+  x per module the set of forms through which it takes the entity's address -- the full product of
+    all subsets per module of the core forms
+      E: direct (abs32 `mov $f,%eax` for functions in a non-PIE, `lea x(%rip)` otherwise), GOT
+         (`mov x@GOTPCREL`), `.quad x` data initialiser, PLT call (functions);
+      libraries: GOT, `.quad`, PLT call, and `lea` where the library binds locally (protected, -Bsymbolic);
+      TLS: LE (definer E), IE, GD, TLSDESC
+    plus (thorough) every extra instruction form (abs32s, abs64, lea, GOT via push / add, call *GOT,
+    IE via mov) joined with every subset of that module's core forms, against a reduced list for
+    the other two modules
   x E kind {non-PIE, PIE} x {lazy, -z now} x variant {plain, -Bsymbolic on A, -Bsymbolic-functions
     on A, -z nocopyreloc on E}.
 Every (kind, use-triple) is one symbol; all symbols of a member are packed into one program which
 prints, per site, the address it sees and what it reads / gets back through it; then E, A and B in
-turn write through their view and everybody re-reads.
+turn write through their view and everybody re-reads. Besides the all-wild program the modules are
+recombined (wild's E with GNU ld's libraries and vice versa) to isolate the module at fault.
 
 Oracle: two sites of an entity that see the same address in GNU ld's program must see the same
-address in wild's; a read that sees the expected marker / the last write in GNU ld's program must
-see it in wild's. Sites GNU ld's program shows as differing (ELF semantics: -Bsymbolic, protected,
-no copy relocation) are excluded and counted. Second, static oracle on wild's files (canonical PLT
-in E's .dynsym, symbolic library relocations, copy relocation shape), applied where GNU ld's files
-have that shape.
+address in the program under test; a read that sees the entity's marker / the last write in GNU ld's
+program must see it too. Sites GNU ld's program shows as differing (ELF semantics: -Bsymbolic,
+protected, IFUNC corner cases) are excluded and counted. Second, static oracle on wild's files
+(canonical PLT in E's .dynsym, symbolic library relocations, copy relocation shape), applied where
+GNU ld's files have that shape.
+
+Keys: <what>:<kind>:def=<definer>:E=<E kind>[+direct]:taker=<module>:way=<form>[:variant=..][:mix=..];
+a violation seen only under a variant / extra form / mix / PIE is counted under the key of the same
+case without it when that one is violated too.
 """
 import json
 import os
@@ -222,6 +232,7 @@ def judge(cfg, insts, sites, live, g, w, stats, mix=None):
             continue
         (obs if st.role == "obs" else wrs).setdefault(st.idx, []).append(st)
     by_sid = {s.sid: s for s in sites}
+    trusted = {None: (), "wildE+gnuAB": ("A", "B"), "gnuE+wildAB": ("E",)}[mix]
     gcr = {c[0] for c in g["crashed"]}
     for idx, sid, phase, rc in w["crashed"]:
         inst = insts[idx]
@@ -273,9 +284,11 @@ def judge(cfg, insts, sites, live, g, w, stats, mix=None):
                 by_addr.setdefault(wa(s), []).append(s)
             if len(by_addr) == 1:
                 continue
-            # The reference view: the address behind which most modules find the entity, then the one
+            # The reference view: in a mixed program the one of a module GNU ld linked; then
+            # the address behind which most modules find the entity, then the one
             # most modules agree on, then the one a pure taker (B, then A) obtains through its GOT.
-            ref_addr = min(by_addr, key=lambda a: (-len({s.mod for s in by_addr[a] if read_ok(s)}),
+            ref_addr = min(by_addr, key=lambda a: (-any(s.mod in trusted for s in by_addr[a]),
+                                                   -len({s.mod for s in by_addr[a] if read_ok(s)}),
                                                    -len({s.mod for s in by_addr[a]}),
                                                    min(ref_priority(s) for s in by_addr[a])))
             ref = min(by_addr[ref_addr], key=ref_priority)
